@@ -286,6 +286,10 @@ impl Property for C15 {
                     let sxx = format!("{:X}", v);
                     (sb, sx, sxx)
                 });
+                // a precision does not shorten the digits (integer formatting ignores it): what is
+                // printed must still parse back to the value
+                let (pb, px) = z_match!(&za, v => (format!("{:.3b}", v), format!("{:.2x}", v)));
+                ensure!(pb == sb && px == sx, format!("{}/precision", what), "{}: {{:.3b}} / {{:.2x}} print {:?} / {:?}, the plain specifications print {:?} / {:?}", a.describe(), crate::engine::clip(&pb, 200), crate::engine::clip(&px, 200), crate::engine::clip(&sb, 200), crate::engine::clip(&sx, 200));
                 for (s, hex, name) in [(&sb, false, "{:b}"), (&sx, true, "{:x}"), (&sxx, true, "{:X}")] {
                     let per = if hex { 4 } else { 1 };
                     if fixed_cap(a.ty).map_or(false, |c| s.len() * per > c) {
